@@ -4,13 +4,15 @@ from .manifest_data import NOTE_COMMON
 
 CLAIM = {
   "technique": "Coq state-machine model of the decoder object (Model/Api.v over Model/Decoder.v) with the reset/integrity/peek facts translated from decoder.go on every run; "
-               "boundary-invariant theorems by case analysis over the step function; differential execution of API histories (vm_compute) and a direct Go oracle "
+               "boundary-invariant theorems by case analysis over the step function; relational (two-run) proof that byte counter, buffer fill and listener log do not influence any function of the decoder model; differential execution of API histories (vm_compute) and a direct Go oracle "
                "(decode after history vs fresh decoder)",
-  "text": "Partial proof. Proved: after every completed Decode, completed Discard, any CheckIntegrity and any Reset, every per-sequence component of the object (definitions, "
-          "developer tables, accumulators, timestamps, CRC, counters, header, file id, messages, sticky error, once) is initial, so the next result is a function of the remaining "
-          "stream, buffer fill, byte counter, event log and options; errors are sticky until Reset. The theorems hold for the current source because reset() clears the tables, "
-          "CheckIntegrity drops the read buffer and PeekFileId stops at the data size (three fix: commits; on the pinned tree the translated flags are false and the obligations "
-          "fail). Independence from byte counter/event log is validated per run by the history-vs-fresh oracle and by correspondence, not yet proved.",
+  "text": "Proved on the model of the decoder object: after every completed Decode, completed Discard, any CheckIntegrity and any Reset, every per-sequence component "
+          "(definitions, developer tables, accumulators, timestamps, CRC, counters, header, file id, messages, sticky error, once) is initial (boundary theorems; they hold because "
+          "reset() clears the tables, CheckIntegrity drops the read buffer and PeekFileId stops at the data size: three fix: commits, translated flags, the obligations fail on the "
+          "pinned tree); and what Decode returns does not depend on the three things in which two decoders at a boundary can still differ -- byte counter, buffer fill, listener "
+          "log (C07_history_independence: relational proof through every function of the decoder model), so at a boundary Decode returns what a fresh decoder over the remaining "
+          "stream returns (C07_same_as_fresh). Errors are compared by class with io.EOF and io.ErrUnexpectedEOF as one class (known finding eof_kind_depends_on_chunking); errors "
+          "are sticky until Reset. Per run: API histories (incl. pooled decoders whose previous reader was empty) against the model and the Go history-vs-fresh oracle.",
   "note": NOTE_COMMON + " Reader = contiguous bytes.Reader (arbitrary chunkings: C08). Sequences consumed with checksums ignored whose records overrun the declared data size "
           "are outside the statement (the start of the next sequence is then undefined)."}
 
